@@ -54,7 +54,7 @@ def expected_probe(e, v):
     if k in ('col', 'con'): return expected_probe(e[1], v)
     if k in ('sl', 'cols'):
         ps = [expected_probe(e[1], x) for x in v]
-        return [len(v), 1 if len(v) == 0 else 0, [('S', p) for p in ps] + [None, None], ps, list(v)]
+        return [len(v), 1 if len(v) == 0 else 0, [('S', p) for p in ps] + [None, None], [None] * 6, ps, list(v)]
     if k == 'opt': return None if v is None else ('S', expected_probe(e[1], v[1]))
     if k == 'res': return (v[0], expected_probe(e[1] if v[0] == 'O' else e[2], v[1]))
     if k == 'tup2': return [expected_probe(e[1], v[0]), expected_probe(e[2], v[1])]
@@ -439,7 +439,12 @@ def c11(ctx):
             for _ in range(ctx.rng.choice([3, 6, 12, 20])):
                 r = ctx.rng.random()
                 if r < 0.07: ops.append(('clear', 0))
-                elif r < 0.12: ops += [('clone', 1, 0), ('push', 1, 0, hg.recent[-1] if hg.recent else hg.value()), ('probe', 1)]
+                elif r < 0.10: ops += [('clone', 1, 0), ('push', 1, 0, hg.recent[-1] if hg.recent else hg.value()), ('probe', 1)]
+                elif r < 0.14:
+                    # clone_from into a destination with its own dedup memory
+                    ops += [('push', 1, 0, hg.value(repeat=0.5)) for _ in range(ctx.rng.choice([0, 1, 3]))]
+                    ops += [('clonefrom', 1, 0), ('push', 1, 0, hg.recent[-1] if hg.recent else hg.value()),
+                            ('push', 1, 0, hg.value(repeat=0.7)), ('probe', 1)]
                 elif r < 0.17: ops += [('merge', 2, [0]), ('push', 2, 0, hg.recent[-1] if hg.recent else hg.value()), ('probe', 2)]
                 elif r < 0.21: ops.append(('serde', 0))
                 else:
